@@ -1018,4 +1018,60 @@ CHECKS = {
                      "before/after oracle per key set",
         "design_ref": "DESIGN.md section 3, C14",
     },
+    "C04": {
+        "bin": "c04",
+        "level": "exploration",
+        "quick": {"shards": 12, "budget_s": 70, "min_evaluations": 800},
+        "thorough": {"shards": 14, "budget_s": 1100, "min_evaluations": 15000},
+        "rule": (
+            "Bounded-exhaustive insertion orders: the roll of CA c (two "
+            "resource classes under p and q, child g, ROAs/ASPA/router key) "
+            "and of CA p (directly under the trust anchor, signer exchange "
+            "as separate tasks) is scripted as initiate / new-key "
+            "certificate travels / activate / revocation travels; ONE "
+            "foreign operation sequence out of 15 kinds (ROA add, ROA "
+            "remove, ASPA, BGPsec, parent shrinks or suspends the rolling "
+            "CA, parent grows it, the rolling CA shrinks or suspends its "
+            "child, a second initiate, an early or second activate, full "
+            "sync with partial pump, forced republish with partial pump, "
+            "the child rolls too, renewal runs, a single-task pump) is "
+            "inserted at each of the 5 gaps: 2 x (1 + 15 x 5) = 152 cases, "
+            "all of them in the thorough tier (plus 600 seeded "
+            "double insertions), a seed-rotated slice of about 60 in the "
+            "quick tier. After every API call and after every single "
+            "background task: a non-current key (pending/new/old) of a CA "
+            "whose publication is up to date publishes nothing but manifest "
+            "and CRL, no product is validated under two keys of one class; "
+            "whenever no publication or request is outstanding the "
+            "validated payloads are exactly the configured-and-covered ones "
+            "(nothing lost, nothing duplicated); no panic. At the end a "
+            "completion driver (sync, un-suspend, activate; at most 12 "
+            "rounds) must leave every class in the single-active-key state "
+            "with the old key's certificate, manifest and CRL gone and the "
+            "tree exact. evaluations = invariant evaluations; "
+            "distinct_nontrivial = distinct (target, kind@gap) cases run."
+        ),
+        "assumptions": COMMON_ASSUMPTIONS + [RP_ASSUMPTION,
+            "orders of background tasks other than the ones the scripted "
+            "pumps and the seeded tie-breaking produce are not enumerated",
+            "role invariants are evaluated for a CA only when no repository "
+            "synchronisation of that CA is outstanding (the repository then "
+            "shows the CA's previous publication by design)",
+        ],
+        "level_text": (
+            "Runtime monitoring over a bounded-exhaustive set of "
+            "interleavings of roll steps with other operations, with "
+            "per-step invariants from an independent relying-party walk and "
+            "a bounded-progress completion driver for 'always completes'."
+        ),
+        "level_note": (
+            "Trusted: rpki-rs validation; key roles are read from the API "
+            "view of the CA; 'always completes' is restated as: within 12 "
+            "rounds of sync/activate."
+        ),
+        "technique": "runtime monitoring: enumerated insertion orders of "
+                     "roll steps x foreign operations with per-task "
+                     "invariants and completion driver",
+        "design_ref": "DESIGN.md section 3, C04",
+    },
 }
